@@ -221,6 +221,12 @@ func c03References(r *engine.Run) bool {
 		w := wins[idx/n]
 		// three references: fixed first, the varied one, a non-matching one -> renumbering is observable
 		c := c03RefCase{Op: "refslice", L: L, Infos: []string{fmt.Sprintf("(bases 1 to %d)", L), info, "(sites)", all[(idx*7+3)%n]}, S: w.s, E: w.e, Mol: "DNA"}
+		if idx%3 == 1 {
+			// no reference that always survives: windows disjoint from every range leave no (or only non-range) references
+			c.Infos = []string{info, all[(idx*7+3)%n]}
+		} else if idx%3 == 2 {
+			c.Infos = []string{info}
+		}
 		r.Evals.Add(1)
 		r.Journal(c)
 		r.Transitions.Add(1)
